@@ -11,7 +11,7 @@ import (
 )
 
 func init() {
-	register("C07", checkC07, "Transport scheduling and timing are NOT decided. Decided necessary conditions: R7.1 for each of the 20 request types the value of ExpectedResponseLength(), evaluated symbolically under the constructor's success state, equals the length of the reply the specification prescribes for that request (8/4 bytes of framing + payload determined by the quantity) — too short lets the read loop stop on a truncated frame for some cut, too long makes a complete reply time out. R7.2 in both clients' read loops: each Read targets received[total:...] with total the loop-carried sum 0, total+n of the counts Read returned; the only exits to the success return are total >= expectedLen (and EOF for the network client); expectedLen and the written bytes are req.ExpectedResponseLength() and req.Bytes() of this call; the value returned is a copy of received[0:total]; tolerated read errors are exactly deadline-exceeded and EOF. R7.3 the protocol-error recogniser is applied to received[0:total] in every iteration before the completeness test and its non-nil result is returned wrapped in *ClientError. R7.4 the recognisers the constructors install claim only exception frames of their framing (never a prefix of a normal reply). R7.5 the timeout that bounds reassembly is a proven-positive duration taken from the configuration's read timeout under a guard on that same field, and constructors hand the caller's timeouts on. R7.6 the reply parsers accept and decode every well-formed reply (C02 R2.1 + R2.6). R7.7 the loop's oversize limit is the ADU size, so a legal reply is never refused as too long. R7.5 also requires guard purity (the configured read timeout is applied under a condition on that field alone). R7.6 includes the dispatcher acceptance rule (no well-formed size is refused before the per-function parser). R7.9 = C02 R2.7 (never neither reply nor error).")
+	register("C07", checkC07, "Transport scheduling and timing are NOT decided. Decided necessary conditions: R7.1 for each of the 20 request types the value of ExpectedResponseLength(), evaluated symbolically under the constructor's success state, equals the length of the reply the specification prescribes for that request (8/4 bytes of framing + payload determined by the quantity) — too short lets the read loop stop on a truncated frame for some cut, too long makes a complete reply time out. R7.2 in both clients' read loops: each Read targets received[total:...] with total the loop-carried sum 0, total+n of the counts Read returned; the only exits to the success return are total >= expectedLen (and EOF for the network client); expectedLen and the written bytes are req.ExpectedResponseLength() and req.Bytes() of this call; the value returned is a copy of received[0:total]; tolerated read errors are exactly deadline-exceeded and EOF. R7.3 the protocol-error recogniser is applied to received[0:total] in every iteration before the completeness test and its non-nil result is returned wrapped in *ClientError. R7.4 the recognisers the constructors install claim only exception frames of their framing (never a prefix of a normal reply). R7.5 the timeout that bounds reassembly is a proven-positive duration taken from the configuration's read timeout under a guard on that same field, and constructors hand the caller's timeouts on. R7.6 the reply parsers accept and decode every well-formed reply (C02 R2.1 + R2.6). R7.7 the loop's oversize limit is the ADU size, so a legal reply is never refused as too long. R7.5 also requires guard purity (the configured read timeout is applied under a condition on that field alone). R7.6 includes the dispatcher acceptance rule (no well-formed size is refused before the per-function parser). R7.9 = C02 R2.7 (never neither reply nor error). R7.10 = C08 R8.7 (Connect stores the dialer's own connection).")
 }
 
 func checkC07(c *Ctx, r *Report) {
